@@ -151,7 +151,7 @@ type c09DocGen struct {
 	lastTx         bool            // last construct was text (adjacent text constructs merge)
 	tmplP          int             // probability (percent) of inserting a region where one is allowed
 	allow          map[string]bool // contexts in which regions may be inserted (nil: all)
-	quoteInForeign bool            // svg/math content may contain a lone double quote (oracle only)
+	quoteInForeign bool            // svg/math content may contain quotes in character data, comments and attribute values
 	loose          bool            // correspondence only: keep constructs whose content contains its own terminator etc. (exp is then meaningless)
 }
 
@@ -829,8 +829,12 @@ func (g *c09DocGen) foreign() {
 	n := g.r.Intn(5)
 	quote := false
 	if g.quoteInForeign && g.r.Chance(1, 3) {
-		// a double quote in character data or inside a single-quoted attribute value: well-formed XML
-		g.buf = append(g.buf, g.r.PickStr([]string{"<text>5\" pipe</text>", "<a title='it\"s'/>", "\""})...)
+		// quotes in character data, inside an attribute value quoted with the other quote, and in comments,
+		// processing instructions and CDATA sections: well-formed XML (the former finding c09-svg:quote, fixed in 5054993)
+		for k := 1 + g.r.Intn(3); k > 0; k-- {
+			g.buf = append(g.buf, g.r.PickStr([]string{"<text>5\" pipe</text>", "<a title='it\"s'/>", "\"", "'", "it's", "<t>'a\"</t>",
+				"<a t='>\"</" + name + ">'/>", "<a t=\">'</" + name + ">\" u='\"'>", "<!-- \" ' -->", "<?pi \"'?>", "<![CDATA[\"']]>", "<b x=\"'\" y='\"'>\"</b>"})...)
+		}
 		quote = true
 	}
 	for i := 0; i < n; i++ {
@@ -958,6 +962,7 @@ var c09Tricky = []string{
 	"<script></SCRIPT>", "<SCRIPT>a</script >", "<script></scriptx></script>", "<script></script-x></script>", "<script><!--<script></script>--></script>", "<script><!--</script>", "<script><!--<script>x</script>y</script>",
 	"<script><!--<SCRIPT ></ScRiPt>--></script>", "<script><!-->x</script>", "<script><!--->x</script>", "<script><!--<scriptx></script>", "<script><!--<script</script>", "<script>a<b</script>", "<script/>a</script>",
 	"<style></style>", "<style>a</STYLE\n>b", "<title></title-x>b</title>", "<textarea></textarea x>", "<xmp><b></xmp>", "<iframe></iframes></iframe>", "<plaintext>a</plaintext><b>", "<PlainText/>x",
+	"<svg><text>5\" pipe</text></svg><p>", "<svg a='>\"</svg>'>x</svg>y", "<svg a=\">'</svg>\">'</svg>y", "<math><!-- \" --></math>x", "<svg><?pi '?></svg>x", "<svg><![CDATA[\"]]></svg>x", "<svg a=\"", "<svg a='\x00'></svg>", "<svg>'<a b=\"</svg>\"></svg>x", "<svg/></svg>x", "<svg '>'></svg>x", "<svg>\"</svg>'</svg>", "<xml a=\"'\" b='\"'>\"'</xml>x", "<svg><</svg>", "<svg><!a \"></svg>", "<svg><a\"></svg>\"></svg>x",
 	"<svg></SVG>", "<svg><path d=\"</svg>\"/></svg>x", "<svg>\"</svg>", "<svg></svgx></svg >", "<svg", "<svg>", "<svg></svg", "<svg>\x00</svg><svg></svg>x<math></math>", "<math></MATH>", "<xml></xml>", "<svgx></svgx>",
 	"a<b", "a< b", "a<", "a<1", "<a>\x00</a>", "\x00", "a\x00<b>\x00</b>", "<a\x00b=c\x00>", "</a\x00>", "<a b='\x00'>", "</\x00", "</\x00>", "<\x00",
 	"</A B=C>", "</A X=Y \f>", "</Ab/Cd>", "</A\tB='C D'/>", "</a\f>", "</a \f >", "</a\f", "</A", "</AB>", "</", "<A B=C>",
@@ -1022,7 +1027,7 @@ var c09Model = &Model{
 			} else if k == 4 {
 				k = 4 + r.Intn(2)
 			}
-			g := &c09DocGen{r: r, tb: tk.tb, te: tk.te, exact: true, tmplP: 40, loose: i%2 == 0, quoteInForeign: i%5 == 0}
+			g := &c09DocGen{r: r, tb: tk.tb, te: tk.te, exact: true, tmplP: 40, loose: i%2 == 0, quoteInForeign: i%3 == 0}
 			c09BuildDoc(g, 1+r.Intn(5))
 			d := g.buf
 			if i%3 == 2 {
@@ -1442,7 +1447,7 @@ func c09Constructs(r *Rng, tier string, rep *Report) {
 	for i := 0; i < n; i++ {
 		tk := c09TmplKinds[i%len(c09TmplKinds)]
 		// regions only as tokens of their own in text: the other contexts are the business of c09Templates
-		g := &c09DocGen{r: r, tb: tk.tb, te: tk.te, exact: true, tmplP: 0, quoteInForeign: i%8 == 7}
+		g := &c09DocGen{r: r, tb: tk.tb, te: tk.te, exact: true, tmplP: 0, quoteInForeign: i%3 == 1}
 		c09BuildDoc(g, 1+r.Intn(6))
 		if !g.exact {
 			continue
